@@ -153,8 +153,10 @@ def gen(rng, tier):
 
 
 def gen_control(rng, tier):
-    op = rng.choice(["kill", "close_write", "wait-after-exit"])
+    op = rng.choice(["kill", "close_write", "wait-after-exit", "wait-for-self-exit", "wait-for-self-exit"])
     prog = rng.choice(["sleep", "recv", "idle"])
+    if op == "wait-for-self-exit":
+        prog = "selfexit"
     return {"mode": "control", "ctl": op, "prog": prog, "backend": rng.choice(["thread", "main_thread_only", "gevent"]),
             "master_bare": rng.random() < 0.3, "knob_seed": rng.randrange(1 << 30), "nsteps": 3}
 
@@ -277,7 +279,12 @@ def execute_control(case, chooser):
     specs = [master, f"popen//via=m//id=g//execmodel={case['backend']}"]
     main = []
     actors = [{"side": "i", "gw": 1, "chan": None, "ops": main}]
-    if case["prog"] != "idle":
+    if case["prog"] == "selfexit":
+        actors.append({"side": "w", "gw": 1, "chan": "c0",
+                       "ops": [["send", "c0", "c0:w2i:1:started", ["none"]], ["sleep", rng.choice([0.5, 1.5, 20.0])],
+                               ["os_exit", 5]]})
+        main += [["exec", "c0", 1, 1], ["recv", "c0"]]
+    elif case["prog"] != "idle":
         actors.append({"side": "w", "gw": 1, "chan": "c0",
                        "ops": [["send", "c0", "c0:w2i:1:started", ["none"]],
                                ["sleep", 1000.0] if case["prog"] == "sleep" else ["recv", "c0"]]})
@@ -286,6 +293,9 @@ def execute_control(case, chooser):
         main += [["io_ctl", 1, "kill"], ["io_ctl", 1, "wait"], ["procstate", "w2"]]
     elif case["ctl"] == "close_write":
         main += [["io_ctl", 1, "close_write"], ["io_ctl", 1, "wait"], ["procstate", "w2"]]
+    elif case["ctl"] == "wait-for-self-exit":
+        # wait() must block until the proxied process has gone and report its exit status
+        main += [["io_ctl", 1, "wait"], ["procstate", "w2"]]
     else:
         main += [["signal", "w2", "kill"], ["io_ctl", 1, "wait"], ["procstate", "w2"]]
     main += [["terminate", 5.0]]
